@@ -15,6 +15,7 @@ from . import flow, sem
 
 DELEG = re.compile(r'^([\w\.\[\]\'"\*]+?)\.(encode|decode|encode_of|decode_of|encode_content|decode_content)\(')
 SELF_CALL = re.compile(r'^self\.(\w+)\(')
+TEXT_CODEC = re.compile(r'''^\s*(\)|['"][\w-]+['"]\s*[,)]|(?:self|cls|\w+)\.[A-Z_]*ENCODING[A-Z_]*\s*[,)])''')
 HELPER_CALL = re.compile(r'^(\w+)\(')
 _HELPERS = {}
 
@@ -110,6 +111,8 @@ def deleg_paths(cls, f, depth=0):
             recv, meth = m.group(1), m.group(2)
             if recv.split('.')[0].split('[')[0] in params or recv.startswith('super('):
                 continue
+            if TEXT_CODEC.match(ev[1][m.end():]):
+                continue        # str.encode('ascii') / bytes.decode(self.ENCODING): a character set conversion, not a child codec
             if recv == 'self':
                 r = cls.find_method(meth)
                 if r and depth < 2:
